@@ -775,6 +775,18 @@ func TestC13(t *testing.T) {
 				}
 			}
 		}
+		// ... and a member that is cancelled in those rounds and comes back only after the window has passed: what it
+		// published or signed before is stale by then, what the others signed in the meantime refers to it
+		for _, n := range cfg.longSleepNs {
+			nr := def(n).NotaryRound
+			for i := 0; i < n; i++ {
+				for _, back := range []int{1, 2, 3, 4, 6, 10} {
+					if nr-back > 1 {
+						scheds = append(scheds, Schedule{N: n, Devs: []Dev{{Kind: "crash", Member: i, Round: nr - back, Len: 150}}})
+					}
+				}
+			}
+		}
 		for _, n := range cfg.sleepNs {
 			for i := 0; i < n; i++ {
 				for r := 0; r < defLen[n]; r++ {
